@@ -1,4 +1,5 @@
 import J5V.Compile.ConvertProofs
+import J5V.Compile.AppendDecl
 /-!
 # C13 — appending declarations never changes existing wire identities
 
@@ -73,6 +74,24 @@ theorem C13_append_field_seq (c : Ctx) (np : List Str) (isOneof : Bool) (virt : 
     exact List.IsPrefix.trans (C13_append_field c np isOneof virt name props e nested psm)
       (ih (props ++ e))
 
+/-- **Append a declaration.** When a j5s file converts before and after a new top-level
+declaration (object, oneof, enum, service, topic or entity) is added at its end — against the same
+type resolver — every file generated before is generated again under the same name and package,
+and its messages, enums and services are a prefix of the new lists: everything the existing
+declarations produced (including all nested content, field numbers, enum values, methods) is
+unchanged and keeps its position. -/
+theorem C13_append_decl (res : Resolver) (path : Str) (imports : List Import)
+    (elems : List Elem) (e : Elem) (fs fs' : List FileSkel)
+    (h : convertFile res path imports elems = .ok fs)
+    (h' : convertFile res path imports (elems ++ [e]) = .ok fs') :
+    ∀ f ∈ fs, ∃ f' ∈ fs', f'.name = f.name ∧ f'.pkg = f.pkg ∧
+      f.msgs <+: f'.msgs ∧ f.enums <+: f'.enums ∧ f.svcs <+: f'.svcs :=
+  convertFile_append_decl res path imports elems e fs fs' h h'
+
+/-- messages, enums and services are only ever appended to a file under construction
+(`addMessage` / `addEnum` / `addService`), whatever the step -/
+theorem C13_addMessage_prefix (r : Root) (s : Step) : r.Le (r.apply s) := Root.le_apply r s
+
 /-! ## Non-vacuity -/
 
 /-- the formerly failing witness: empty enum, `X_UNSPECIFIED` appended — value 0 keeps its name -/
@@ -80,6 +99,14 @@ example :
     (convEnum { name := b!"Foo", pfx := [], opts := [] }).values = [(b!"FOO_UNSPECIFIED", 0)] ∧
     (convEnum { name := b!"Foo", pfx := [], opts := [b!"X_UNSPECIFIED"] }).values =
       [(b!"FOO_UNSPECIFIED", 0), (b!"FOO_X_UNSPECIFIED", 1)] := by decide
+
+/-- both hypotheses of `C13_append_decl` hold for a concrete file and appended declaration -/
+example :
+    (convertFile ⟨b!"foo.v1", [], []⟩ b!"foo/v1/a.j5s" []
+      [.object (.mk b!"A" [.mk b!"x" false false (.string [] false)] [] none)]).isOk = true ∧
+    (convertFile ⟨b!"foo.v1", [], []⟩ b!"foo/v1/a.j5s" []
+      ([.object (.mk b!"A" [.mk b!"x" false false (.string [] false)] [] none)] ++
+       [.enum { name := b!"E", pfx := [], opts := [b!"ONE"] }])).isOk = true := by decide
 
 example :
     (convEnum { name := b!"Foo", pfx := [], opts := [b!"A", b!"B"] }).values =
